@@ -87,6 +87,9 @@ pub enum Op {
     Zeroize { dst: usize },
     /// dst = a ^ (exp mod 2^bits) through pow_bounded_exp (bits <= 64)
     Pow { dst: usize, a: usize, exp: u64, bits: u32 },
+    /// dst = a ^ e through `pow` (the whole exponent type counts), the exponent being 1, 2 or 4 limbs wide whatever the
+    /// modulus' width is (boxed: an exponent of another precision than the modulus)
+    PowWide { dst: usize, a: usize, e: Vec<u64> },
     /// dst = sum of products of register pairs through lincomb_vartime
     Lincomb { dst: usize, pairs: Vec<(usize, usize)> },
     /// dst = a^-1 if it exists (register unchanged otherwise)
@@ -159,6 +162,7 @@ pub trait Rep: Clone {
         None
     }
     fn pow(&self, exp: u64, bits: u32) -> Self;
+    fn pow_wide(&self, e: &[u64]) -> Self;
     fn lincomb(pairs: &[(Self, Self)]) -> Self;
     /// None: this replica offers no inversion; Some(None): not invertible
     fn invert(&self, vartime: bool) -> Option<Option<Self>>;
@@ -261,6 +265,13 @@ where
     fn pow(&self, exp: u64, bits: u32) -> Self {
         CRep(self.0.pow_bounded_exp(&Uint::<1>::from_u64(exp), bits))
     }
+    fn pow_wide(&self, e: &[u64]) -> Self {
+        CRep(match e.len() {
+            1 => self.0.pow(&uint_of::<1>(e)),
+            2 => self.0.pow(&uint_of::<2>(e)),
+            _ => self.0.pow(&uint_of::<4>(e)),
+        })
+    }
     fn lincomb(pairs: &[(Self, Self)]) -> Self {
         let v: Vec<(ConstMontyForm<M, N>, ConstMontyForm<M, N>)> = pairs.iter().map(|(a, b)| (a.0, b.0)).collect();
         CRep(ConstMontyForm::lincomb_vartime(&v))
@@ -341,6 +352,13 @@ where
 {
     fn pow(&self, exp: u64, bits: u32) -> Self {
         self.pow_bounded_exp(&Uint::<1>::from_u64(exp), bits)
+    }
+    fn pow_wide(&self, e: &[u64]) -> Self {
+        match e.len() {
+            1 => MontyForm::pow(self, &uint_of::<1>(e)),
+            2 => MontyForm::pow(self, &uint_of::<2>(e)),
+            _ => MontyForm::pow(self, &uint_of::<4>(e)),
+        }
     }
     fn lincomb(pairs: &[(Self, Self)]) -> Self {
         let v: Vec<(&MontyForm<N>, &MontyForm<N>)> = pairs.iter().map(|(a, b)| (a, b)).collect();
@@ -519,6 +537,9 @@ impl Rep for BoxedMontyForm {
     }
     fn pow(&self, exp: u64, bits: u32) -> Self {
         self.pow_bounded_exp(&BoxedUint::from(exp), bits)
+    }
+    fn pow_wide(&self, e: &[u64]) -> Self {
+        BoxedMontyForm::pow(self, &BoxedUint::from_words(e.iter().copied()))
     }
     fn lincomb(pairs: &[(Self, Self)]) -> Self {
         let v: Vec<(&BoxedMontyForm, &BoxedMontyForm)> = pairs.iter().map(|(a, b)| (a, b)).collect();
@@ -1132,6 +1153,13 @@ fn run<C: Rep, D: Rep + Monty, B: Rep + Monty>(
                 each!("pow_bounded_exp", |s| s.regs[*dst] = s.regs[*a].pow(*exp, bits));
                 touched.push(*dst);
             }
+            Op::PowWide { dst, a, e } => {
+                opname = "pow".into();
+                let x = model.regs[*a].clone();
+                model.regs[*dst] = x.modpow(&big(e), &model.m);
+                each!("pow", |s| s.regs[*dst] = s.regs[*a].pow_wide(e));
+                touched.push(*dst);
+            }
             Op::Lincomb { dst, pairs } => {
                 opname = "lincomb_vartime".into();
                 if pairs.is_empty() {
@@ -1450,6 +1478,9 @@ impl Rep for NoRep {
     fn copy_from(&mut self, _: &Self) {}
     fn zeroize_value(&mut self, _: &()) {}
     fn pow(&self, _: u64, _: u32) -> Self {
+        NoRep
+    }
+    fn pow_wide(&self, _: &[u64]) -> Self {
         NoRep
     }
     fn lincomb(_: &[(Self, Self)]) -> Self {
@@ -1923,7 +1954,22 @@ impl TypedScenario for History {
                         1 => u64::MAX,
                         _ => r.next(),
                     };
-                    Op::Pow { dst: reg(&mut r), a: reg(&mut r), exp, bits }
+                    if r.chance(1, 3) {
+                        // the exponent's own width decides how many bits count; put something into its top limb
+                        let k = *r.pick(&[1usize, 2, 4]);
+                        let mut e = vec![0u64; k];
+                        e[0] = exp;
+                        if k > 1 && r.chance(2, 3) {
+                            e[k - 1] = match r.below(3) {
+                                0 => 1,
+                                1 => 1u64 << 63,
+                                _ => r.next(),
+                            };
+                        }
+                        Op::PowWide { dst: reg(&mut r), a: reg(&mut r), e }
+                    } else {
+                        Op::Pow { dst: reg(&mut r), a: reg(&mut r), exp, bits }
+                    }
                 }
                 22 => {
                     let k = r.range(1, 5) as usize;
